@@ -8,7 +8,9 @@
 (* Two uses: (B1) TLC checks every clause on every reachable design, including profiles with rounding ties, an     *)
 (* automatic VOA, a low extended maximum gain and amplifier -> amplifier (Rich = TRUE); (B2) with Rich = FALSE every complete design is    *)
 (* emitted as one JSON line and replayed into the real designed_network - the grid then avoids ties (checked by    *)
-(* NoTieOnGrid) and both admissible reductions coincide, so the expectation is unique.                            *)
+(* NoTieOnGrid) and both admissible reductions coincide, so the expectation is unique up to the automatic VOA    *)
+(* (rich = 1) and to which of two auto-selectable models is in place (rich = 5); rich = 6: line starting at a      *)
+(* transceiver.                                                                                                    *)
 EXTENDS DesignPower, Json, TLC
 
 CONSTANTS MaxSpans,      \* 1..3
@@ -21,7 +23,8 @@ CONSTANTS MaxSpans,      \* 1..3
 cdB(x) == x * 10000                           \* centi-dB -> micro-dB
 
 Pad     == cdB(1000)                          \* Span.padding 10 dB
-PMax    == cdB(1200)                          \* p_max of both library models: 12 dBm (design power 10 dBm + offset 2)
+PMax    == cdB(1200)                          \* p_max of the library models: 12 dBm (design power 10 dBm + offset 2)
+PMax2   == cdB(1220)                          \* a second, noisier auto-selectable model with 0.2 dB more power (profiles rich = 5)
 FlatX   == cdB(4300)                          \* gain_flatmax 40 dB + extension 3 dB: never binding
 FlatLow == cdB(1900)                          \* B1 only: an auto-selected model whose extended maximum gain binds
 
@@ -56,10 +59,10 @@ AmpOf(raw, rawNext, last, u, rich) ==
      Ln |-> IF last \/ rawNext = 0 THEN 0 ELSE MaxI(rawNext, Pad),
      nxt |-> IF last THEN ROADM ELSE IF rawNext = 0 THEN AMP ELSE SPAN,
      inVoa |-> u.inVoa, uGain |-> u.g, uDp |-> u.dp, uVoa |-> u.voa, uVar |-> u.var, kind |-> u.id,
-     pmax |-> PMax, flatx |-> IF rich = 2 /\ ~u.var THEN FlatLow ELSE FlatX, autoVoa |-> (rich = 1)]
+     pmax |-> PMax, pmaxSet |-> IF rich = 5 /\ ~u.var THEN {PMax, PMax2} ELSE {PMax}, flatx |-> IF rich = 2 /\ ~u.var THEN FlatLow ELSE FlatX, autoVoa |-> (rich = 1)]
 
 ProfilesOf(n, losses, rich) ==
-    {[t0 |-> t0, rich |-> rich,
+    {[ing |-> 0, tx |-> 0, dpref |-> 0, t0 |-> t0, rich |-> rich,
       amps |-> [k \in 1..(n + 1) |-> AmpOf(IF k = 1 THEN 0 ELSE ls[k - 1], IF k <= n THEN ls[k] ELSE 0, k = n + 1,
                                            us[k], rich)]] :
         t0 \in {0 - cdB(2000), 0 - cdB(1750)},
@@ -67,8 +70,19 @@ ProfilesOf(n, losses, rich) ==
         us \in {f \in [1..(n + 1) -> UserKinds] :
                    MultiUser \/ Cardinality({k \in 1..(n + 1) : f[k].id # 0}) <= 1}}
 
+\* lines that start directly at a transceiver (no ROADM, hence no booster): transmit power 0 / -2 dBm, reference power of
+\* the design 0 / -1 dBm (dpref), amplifier k after span k
+TrxProfilesOf(n, losses) ==
+    {[ing |-> 1, tx |-> tx, dpref |-> dp, t0 |-> tx - dp, rich |-> 6,
+      amps |-> [k \in 1..n |-> AmpOf(ls[k], IF k < n THEN ls[k + 1] ELSE 0, k = n, us[k], 6)]] :
+        tx \in {0, 0 - cdB(200)}, dp \in {0, 0 - cdB(100)},
+        ls \in [1..n -> losses],
+        us \in {f \in [1..n -> UserKinds] : Cardinality({k \in 1..n : f[k].id # 0}) <= 1}}
+
 MCProfiles ==
     UNION {ProfilesOf(n, LossSet, 0) : n \in 1..MaxSpans}
+      \cup ProfilesOf(1, LossSet, 5)                  \* two auto-selectable models of nearly equal p_max
+      \cup TrxProfilesOf(1, LossSet) \cup TrxProfilesOf(2, {cdB(1430), cdB(2770)})
       \cup (IF Rich THEN ProfilesOf(1, MCLossesTie \cup {cdB(2000)}, 3)      \* rounding ties
                           \cup ProfilesOf(1, {cdB(2000), cdB(2770)}, 1)      \* automatic output VOA
                           \cup ProfilesOf(2, {cdB(2770)}, 2)                 \* low extended maximum gain
@@ -79,7 +93,7 @@ MCVoaGrid == {cdB(50), cdB(150)}
 
 \* on the replayed grid the rule never ties, so the expectation emitted for B2 is unique
 NoTieOnGrid == \A k \in 1..Len(oms.amps) :
-                  (oms.rich = 0 /\ RuleApplies(cfg, oms.amps[k])) =>
+                  (oms.rich \in {0, 1, 5, 6} /\ RuleApplies(cfg, oms.amps[k])) =>
                       Cardinality(RuleSet(cfg, oms.amps[k].nxt, oms.amps[k].Ln)) = 1
 
 \* emission for the spec -> code replay (B2): one JSON line per complete design of a replayable profile (rich 0, and
@@ -87,7 +101,7 @@ NoTieOnGrid == \A k \in 1..Len(oms.amps) :
 \* deterministic spread over every dimension of the grid selects the designs to replay when a stride is set
 Spread == cfg.mode + cfg.slope \div 100 + cfg.lo \div 1000000 + oms.t0 \div 500000
           + SumSeq([k \in 1..Len(oms.amps) |-> oms.amps[k].L \div 10000 + 7 * k * oms.amps[k].kind])
-Selected == LET st == IF Len(oms.amps) = 2 THEN EmitStride1 ELSE EmitStride2 IN Spread % st = 0
-Emit == i < Len(oms.amps) \/ oms.rich \notin {0, 1} \/ ~Selected
+Selected == LET st == IF Len(oms.amps) = 2 \/ oms.rich # 0 THEN EmitStride1 ELSE EmitStride2 IN Spread % st = 0
+Emit == i < Len(oms.amps) \/ oms.rich \notin {0, 1, 5, 6} \/ ~Selected
           \/ PrintT("@@" \o ToJson([cfg |-> cfg, oms |-> oms, out |-> out]))
 ==============================================================================
